@@ -9,6 +9,7 @@ import (
 	"time"
 
 	"github.com/PowerDNS/lightningstream/config"
+	"github.com/PowerDNS/lightningstream/lmdbenv/dbiflags"
 	"github.com/PowerDNS/lightningstream/lmdbenv/header"
 	"github.com/PowerDNS/lightningstream/snapshot"
 	"github.com/PowerDNS/lightningstream/snapshot/gogosnapshot"
@@ -571,8 +572,10 @@ func checkC20Cycle(c C20Cycle, o *vcore.Obs) error {
 				}
 				// a fresh receiver WITH the hack creates the DBI as the duplicate-keys DBI it is and ends up
 				// with exactly the sender's pairs
-				if err := acceptedByFresh(loaded, mainPairs, flags); err != nil {
-					return fmt.Errorf("%s: fresh receiver with dupsort_hack: %v", step, err)
+				for _, override := range []bool{false, true} {
+					if err := acceptedByFresh(loaded, mainPairs, flags, override); err != nil {
+						return fmt.Errorf("%s: fresh receiver with dupsort_hack (override_create_flags: %v): %v", step, override, err)
+					}
 				}
 			}
 		case "remote":
@@ -731,10 +734,16 @@ func refusedBy(loaded *snapshot.Snapshot, lc config.LMDB, existing bool) error {
 	return nil
 }
 
-func acceptedByFresh(loaded *snapshot.Snapshot, want map[string][2][]byte, flags uint) error {
+func acceptedByFresh(loaded *snapshot.Snapshot, want map[string][2][]byte, flags uint, override bool) error {
 	env := lm.New(32<<20, 8)
 	defer env.Close()
-	s, _ := newShadowSyncer(env.Env, "r", config.LMDB{SchemaTracksChanges: false, DupSortHack: true})
+	lc := config.LMDB{SchemaTracksChanges: false, DupSortHack: true}
+	if override {
+		// the documented way to tell a receiver of pre-v3 snapshots what kind of DBI to create
+		fl := dbiflags.Flags(flags)
+		lc.DBIOptions = map[string]config.DBIOptions{"dup": {OverrideCreateFlags: &fl}}
+	}
+	s, _ := newShadowSyncer(env.Env, "r", lc)
 	var buf bytes.Buffer
 	if _, err := loaded.WriteTo(&buf); err != nil {
 		return err
@@ -769,6 +778,52 @@ func acceptedByFresh(loaded *snapshot.Snapshot, want map[string][2][]byte, flags
 	}
 	if len(got) != len(want) {
 		return fmt.Errorf("receiver has %d pairs, sender %d", len(got), len(want))
+	}
+	// one more mirror cycle on the receiver: its application deletes a pair, the deletion is captured, the
+	// same (older) snapshot arrives again - the pair stays deleted, the others stay
+	if len(d.Entries) == 0 {
+		return nil
+	}
+	victim := d.Entries[0]
+	err = env.Update(func(txn *lmdb.Txn) error {
+		dbi, err := txn.OpenDBI("dup", 0)
+		if err != nil {
+			return err
+		}
+		return txn.Del(dbi, victim.Key, victim.Val)
+	})
+	if err != nil {
+		return fmt.Errorf("harness: delete on the receiver: %v", err)
+	}
+	last, err := s.SendOnce(context.Background(), env.Env)
+	if err != nil {
+		return fmt.Errorf("SendOnce on the receiver after a local delete: %v", err)
+	}
+	var cp2 snapshot.Snapshot
+	if err := cp2.Unmarshal(buf.Bytes()); err != nil {
+		return err
+	}
+	upd2 := snapshot.Update{Snapshot: &cp2, NameInfo: snapshot.NameInfo{Kind: snapshot.KindSnapshot, InstanceID: "a", Timestamp: time.Unix(0, 4)}}
+	if _, _, err := s.LoadOnce(context.Background(), env.Env, "a", upd2, last); err != nil {
+		return fmt.Errorf("second LoadOnce: %v", err)
+	}
+	dump2, err := lm.DumpEnv(env.Env)
+	if err != nil {
+		return err
+	}
+	got2 := map[string]bool{}
+	if d2 := dump2.DBI("dup"); d2 != nil {
+		for _, e := range d2.Entries {
+			got2[pairKey(e.Key, e.Val)] = true
+		}
+	}
+	if got2[pairKey(victim.Key, victim.Val)] {
+		return fmt.Errorf("pair %q deleted by the receiver's application came back after the next mirror cycle", pairKey(victim.Key, victim.Val))
+	}
+	for p := range want {
+		if p != pairKey(victim.Key, victim.Val) && !got2[p] {
+			return fmt.Errorf("pair %q vanished from the receiver after a mirror cycle that only deleted another pair", p)
+		}
 	}
 	return nil
 }
